@@ -25,15 +25,28 @@
 (*                  ge / le  point.StartTime <= Time / Time <= point.Time                *)
 EXTENDS ExemplarModel, TraceKit
 
-VARIABLES l, C, temp, past
-vars == <<l, C, temp, past>>
+VARIABLES l, C, temp, past, aggsets
+vars == <<l, C, temp, past, aggsets>>
 
 C0 == [filter |-> "trace", res |-> [kind |-> "default", k |-> 0, bounds |-> <<>>], agg |-> "sum", hb |-> <<>>,
-       maxsize |-> 0, ncpu |-> 1, keep |-> [all |-> TRUE, keys |-> <<>>], async |-> FALSE]
+       maxsize |-> 0, ncpu |-> 1, keep |-> [all |-> TRUE, keys |-> <<>>], async |-> FALSE, limit |-> 0]
 
-NormM(m) == [o |-> m.o, g |-> m.g, s |-> ToSet(m.s), v |-> m.v, cls |-> m.cls, c |-> m.c]
-RECURSIVE NormOps(_)
-NormOps(ops) == IF ops = <<>> THEN <<>> ELSE <<NormM(Head(ops))>> \o NormOps(Tail(ops))
+NormM(m) == [o |-> m.o, g |-> m.g, s |-> ToSet(m.s), v |-> m.v, cls |-> m.cls, c |-> m.c, ov |-> FALSE]
+(* Cardinality limit (the rule C12 checks): a measurement whose attribute set is not yet *)
+(* among the stream's sets when limit - 1 sets exist is aggregated into the overflow set  *)
+(* (which then counts as a set).  kn = the sets the aggregate currently holds.            *)
+RECURSIVE Fold(_, _, _)
+Fold(ops, kn, acc) ==
+  IF ops = <<>> THEN [ms |-> acc, kn |-> kn]
+  ELSE LET m == NormM(Head(ops))
+           p == Kept(C, m.s)
+           cnt == Counted(C, m)
+           ov == cnt /\ C.limit > 0 /\ p \notin kn /\ Cardinality(kn) >= C.limit - 1
+           kn2 == IF ~cnt THEN kn ELSE IF ov THEN kn \cup {OverflowSet} ELSE kn \cup {p}
+       IN Fold(Tail(ops), kn2, Append(acc, [m EXCEPT !.ov = ov]))
+(* the aggregate forgets its attribute sets at a delta collection (observable sums and    *)
+(* gauges at every collection)                                                             *)
+Forgets == temp = "delta" \/ (C.async /\ C.agg \in {"sum", "last"})
 
 -----------------------------------------------------------------------------
 (* "every exported exemplar corresponds to a measurement actually made on that stream *)
@@ -46,8 +59,8 @@ ValOK(m, e) == m.v = e.v /\ m.cls = e.cls
 IdsOK(m, e) == CASE m.c = "none" -> e.sp = 0 /\ e.tr = 0
                  [] m.c = "unsampled" -> (e.sp = m.o /\ e.tr = m.o) \/ (e.sp = 0 /\ e.tr = 0)
                  [] OTHER -> e.sp = m.o /\ e.tr = m.o
-FaOK(m, e) == ToSet(e.fa) = Dropped(C, m.s)
-PtOK(m, p) == Kept(C, m.s) = p
+FaOK(m, e) == ToSet(e.fa) = Dropped(C, m)
+PtOK(m, p) == Pt(C, m) = p
 
 Ident(all, p, e) ==
   {all[i].o : i \in {j \in DOMAIN all : /\ all[j].o \in ToSet(e.cand) /\ PtOK(all[j], p) /\ ValOK(all[j], e)
@@ -104,19 +117,21 @@ CycleViols(T, cur) ==
        \cup UNION {{[a |-> T.pts[i].attrs, clause |-> c] : c \in PointClauses(all, cur, T.pts[i])} : i \in DOMAIN T.pts}
 
 -----------------------------------------------------------------------------
-Init == l = 1 /\ C = C0 /\ temp = "delta" /\ past = <<>>
+Init == l = 1 /\ C = C0 /\ temp = "delta" /\ past = <<>> /\ aggsets = {}
 
 (* reset action: many (reader, stream) traces are validated by one TLC run *)
 TNew == /\ l <= Len(Trace) /\ Trace[l].ev = "New"
-        /\ C' = Trace[l].C /\ temp' = Trace[l].temp /\ past' = <<>>
+        /\ C' = Trace[l].C /\ temp' = Trace[l].temp /\ past' = <<>> /\ aggsets' = {}
         /\ l' = l + 1
 
 TCycle ==
   /\ l <= Len(Trace) /\ Trace[l].ev = "Cycle"
   /\ LET T == Trace[l]
-         cur == NormOps(T.ops)
+         fd == Fold(T.ops, aggsets, <<>>)
+         cur == fd.ms
          viols == CycleViols(T, cur)
      IN /\ past' = past \o cur
+        /\ aggsets' = IF Forgets THEN {} ELSE fd.kn
         /\ \A v \in viols : Viol([line |-> l, sc |-> T.sc, a |-> v.a, clause |-> v.clause])
   /\ l' = l + 1 /\ UNCHANGED <<C, temp>>
 
